@@ -300,13 +300,114 @@ def run_lfo_script(sc):
     return out
 
 
+def build_reader(spec, lfo):
+    """the pattern object a reader spec stands for (coq/Auto/Readers.v rspec), children first"""
+    k = spec[0]
+    if k == "lfo":
+        return iso.PLFO(lfo)
+    if k == "const":
+        return iso.PConstant(spec[1])
+    if k == "bin":
+        cls = {"add": iso.PAdd, "sub": iso.PSub, "mul": iso.PMul}[spec[1]]
+        a = build_reader(spec[2], lfo)
+        return cls(a, build_reader(spec[3], lfo))
+    if k == "seq":
+        return iso.PSequence(list(spec[1])) if spec[2] else iso.PSequence(list(spec[1]), 1)
+    if k == "concat":
+        return iso.PConcatenate([build_reader(x, lfo) for x in spec[1]])
+    if k == "reset":
+        r = build_reader(spec[1], lfo)
+        return iso.PReset(r, build_reader(spec[2], lfo))
+    if k == "pingpong":
+        return iso.PPingPong(build_reader(spec[1], lfo), spec[2])
+    raise ValueError("reader spec %r" % (spec,))
+
+
+def run_lfo_readers(sc):
+    """one LFO that keeps running while it is READ THROUGH PATTERNS: standalone readers (PLFO inside expressions,
+    PConcatenate, PReset, PPingPong, finite wrappers) that are advanced / reset / drained by all() and len() / copied /
+    constructed mid-cycle, tracks whose event stream reads the LFO and which are reset (Track.reset, timeline.schedule(track),
+    timeline.reset) or re-scheduled by name.  Observed after every operation: what it returned, lfo.value, a witness PLFO
+    nobody else touches, the bound attribute; per tick also what every track sent"""
+    dev = Dev()
+    tl = iso.Timeline(output_device=dev, clock_source=iso.DummyClock(ticks_per_beat=sc["tpb"]))
+    out = {"raise": None, "ops": []}
+    try:
+        lfo = tl.lfo({"shape": "sine", "frequency": sc["freq"], "min": sc["min"], "max": sc["max"]})
+        out["init"] = f(lfo.value)
+        witness = iso.PLFO(lfo)
+
+        class Holder:
+            cutoff = None
+        h = Holder()
+        lfo.bind(h, "cutoff")
+        readers, tracks, params = [], [], []
+        for j, t in enumerate(sc.get("tracks", [])):
+            value = lfo if t["value"] == "raw-lfo" else build_reader(t["value"], lfo)
+            ev = {"control": 20 + j, "value": value, "channel": 1, "duration": t["every"] / sc["tpb"]}
+            params.append(ev)
+            tracks.append(tl.schedule(ev, name="reader%d" % j))
+        k = 0
+
+        def sent(tick):
+            return [[c[1] - 20, f(c[2])] for c in dev.log if c[0] == tick and c[3] == 1 and c[1] >= 20]
+        for op in sc["ops"]:
+            rec = {"result": None, "raise": None}
+            out["ops"].append(rec)
+            if op[0] == "tick":
+                rec["ticks"] = []
+                for _ in range(op[1]):
+                    dev.now = k
+                    tl.tick()
+                    rec["ticks"].append([f(lfo.value), f(next(witness)), f(h.cutoff), sent(k)])
+                    k += 1
+                continue
+            try:
+                if op[0] == "build":
+                    readers.append(build_reader(op[1], lfo))
+                elif op[0] == "next":
+                    try:
+                        rec["result"] = ["val", f(next(readers[op[1]]))]
+                    except StopIteration:
+                        rec["result"] = ["stop"]
+                elif op[0] == "reset":
+                    readers[op[1]].reset()
+                elif op[0] == "all":
+                    rec["result"] = ["list", [f(x) for x in readers[op[1]].all()]]
+                elif op[0] == "len":
+                    rec["result"] = ["len", len(readers[op[1]])]
+                elif op[0] == "copy":
+                    c = readers[op[1]].copy()
+                    rec["result"] = ["copied", c is not readers[op[1]]]
+                elif op[0] == "track_reset":
+                    tracks[op[1]].reset()
+                elif op[0] == "reschedule":
+                    tl.schedule(tracks[op[1]])
+                elif op[0] == "reschedule_name":
+                    r = tl.schedule(dict(params[op[1]]), name="reader%d" % op[1])
+                    rec["result"] = ["same", r is tracks[op[1]]]
+                elif op[0] == "timeline_reset":
+                    tl.reset()
+            except Exception as e:
+                rec["raise"] = type(e).__name__
+                rec["message"] = str(e)[:160]
+            rec["lfo"] = f(lfo.value)
+            rec["witness"] = f(next(witness))
+        out["n_lfos"] = len(tl.lfos)
+    except Exception as e:
+        out["raise"] = type(e).__name__
+        out["message"] = str(e)[:200]
+    return out
+
+
 def main():
     req = json.load(sys.stdin)
     sink = io.StringIO()
     with contextlib.redirect_stdout(sink), contextlib.redirect_stderr(sink):
         res = {"autos": [run_auto(sc) for sc in req.get("autos", [])],
                "lfos": [run_lfo(sc) for sc in req.get("lfos", [])],
-               "lfo_scripts": [run_lfo_script(sc) for sc in req.get("lfo_scripts", [])]}
+               "lfo_scripts": [run_lfo_script(sc) for sc in req.get("lfo_scripts", [])],
+               "lfo_readers": [run_lfo_readers(sc) for sc in req.get("lfo_readers", [])]}
     res["noise"] = sink.getvalue()[-500:]
     json.dump(res, sys.stdout)
 
